@@ -1,0 +1,22 @@
+//go:build verif
+
+package smtp
+
+import "net"
+
+// Export shims for the /verif session harness (build tag verif only).
+
+// VerifSessionServe serves SMTP/LMTP sessions on an injected listener
+// (blocks until the listener is closed).
+func (endp *Endpoint) VerifSessionServe(l net.Listener) error {
+	return endp.serv.Serve(l)
+}
+
+// VerifSessionPermits returns the permits in use of the endpoint's limits
+// group, per scope and per key.
+func (endp *Endpoint) VerifSessionPermits() map[string]int {
+	if endp.limits == nil {
+		return map[string]int{}
+	}
+	return endp.limits.VerifSessionInUse()
+}
